@@ -939,6 +939,19 @@ class Sym:
         if kind == 'global':
             if 'cv' in e:
                 return [(st, ('k', int(e['cv']), 'const:' + e.get('q', '')))]
+            # a constexpr reference (a name given to another constant object, e.g. `static constexpr auto& w = known_word("x")`)
+            # designates what its initialiser designates
+            if e.get('constexpr') and (e.get('t') or '').rstrip().endswith('&') is False:
+                g = self.global_by_q(e['q'])
+                if g is not None and g.get('constexpr') and g.get('t', '').rstrip().endswith('&') and g.get('init') is not None \
+                        and g.get('constant_init', True) and self.depth < self.max_depth:
+                    self.depth += 1
+                    try:
+                        outs = self.ev(g['init'], st)
+                    finally:
+                        self.depth -= 1
+                    if len(outs) == 1 and outs[0][0].throw is None:
+                        return outs
             return [(st, ('global', e['q']))]
         if kind == 'fn':
             return [(st, ('fn', e['fn']['id']))]
@@ -1721,6 +1734,13 @@ class Sym:
                 m = _re.search(r'\(&\)\[(\d+)\]\)\s*$', callee['id'])
                 if m:
                     return [(st, ('k', int(m.group(1)), 'int'))]
+            if name == 'get' and recv is None and len(args) == 1 and callee['id'].startswith('std::get<') and 'std::pair<' in callee['id'] \
+                    and 'std::variant<' not in callee['id']:
+                # std::get<I>(pair): its first / second member
+                import re as _re
+                m = _re.match(r'std::get<(\d+)', callee['id'])
+                if m and m.group(1) in ('0', '1'):
+                    return [(st, ('fld', args[0], 'first' if m.group(1) == '0' else 'second'))]
             if name == 'get' and recv is None and len(args) == 1 and callee['id'].startswith('std::get<') and 'std::variant<' in callee['id']:
                 r = self.variant_get(callee, args[0], st)
                 if r is not None:
